@@ -121,9 +121,10 @@ theorem lost1_pendOk (s : St) (hr : ReadyOk s) : PendOk (lost1 s) :=
 theorem mem_failFx {c : Call} {y : Fx} (h : y ∈ failFx c) :
     y = Fx.timerCancelled c.serial ∨ y = Fx.callErr c.serial (errKindOf c.kind) := by
   unfold failFx at h
-  cases hct : c.timed <;> simp [hct] at h
+  cases hct : c.timed <;> cases hcc : c.cancelled <;> simp [hct, hcc] at h
   · exact Or.inr h
   · exact h
+  · exact Or.inl h
 
 theorem mem_proxyFx {proxies : List Proxy} {e : Nat × Nat} {y : Fx} (h : y ∈ proxyFx proxies e) :
     ∃ c, y = Fx.proxyCb e.2 c := by
@@ -135,8 +136,8 @@ theorem mem_proxyFx {proxies : List Proxy} {e : Nat × Nat} {y : Fx} (h : y ∈ 
     · cases h
   · cases h
 
-/-- Each pending call's Deferred fires exactly once, with the loss. -/
-theorem loss_call_once (s : St) (hr : ReadyOk s) (c : Call) (hc : c ∈ s.pending) :
+/-- Each pending call's Deferred - unless the caller has cancelled it - fires exactly once, with the loss. -/
+theorem loss_call_once (s : St) (hr : ReadyOk s) (c : Call) (hc : c ∈ s.pending) (hnc : c.cancelled = false) :
     (lossLog s).countP (Fx.completes c.serial) = 1 ∧ Fx.callErr c.serial (errKindOf c.kind) ∈ lossLog s := by
   have hc1 : c ∈ (lost1 s).pending := runConnCbs_pending_mono _ _ c hc
   constructor
@@ -154,14 +155,37 @@ theorem loss_call_once (s : St) (hr : ReadyOk s) (c : Call) (hc : c ∈ s.pendin
       simp [Fx.completes]
     rw [z1, z3, countP_flatMap_key (Fx.completes c.serial) failFx (·.serial) c _ (lost1_pendOk s hr).1 hc1]
     · unfold failFx
-      cases c.timed <;> simp [Fx.completes]
+      cases c.timed <;> simp [Fx.completes, hnc]
     · intro b _ hb y hy
       rcases mem_failFx hy with rfl | rfl <;> simp [Fx.completes, hb]
   · unfold lossLog
     apply List.mem_append_left
     apply List.mem_append_right
     apply List.mem_flatMap.mpr
-    exact ⟨c, hc1, by unfold failFx; simp⟩
+    exact ⟨c, hc1, by unfold failFx; simp [hnc]⟩
+
+/-- A pending call whose Deferred the caller has cancelled: the loss fires nothing on it (the errback is
+swallowed; the caller concluded it with CancelledError before). -/
+theorem loss_cancelled_call_silent (s : St) (hr : ReadyOk s) (c : Call) (hc : c ∈ s.pending) (hcc : c.cancelled = true) :
+    (lossLog s).countP (Fx.completes c.serial) = 0 := by
+  have hc1 : c ∈ (lost1 s).pending := runConnCbs_pending_mono _ _ c hc
+  unfold lossLog
+  rw [List.countP_append, List.countP_append]
+  have z1 : (s.dcCallbacks.map (fun c => Fx.connCb c.id)).countP (Fx.completes c.serial) = 0 := by
+    apply List.countP_eq_zero.mpr
+    intro y hy
+    obtain ⟨d, _, rfl⟩ := List.mem_map.mp hy
+    simp [Fx.completes]
+  have z3 : ((lost2 s).registry.flatMap (proxyFx (lost2 s).proxies)).countP (Fx.completes c.serial) = 0 := by
+    apply countP_flatMap_zero
+    intro e _ y hy
+    obtain ⟨d, rfl⟩ := mem_proxyFx hy
+    simp [Fx.completes]
+  rw [z1, z3, countP_flatMap_key (Fx.completes c.serial) failFx (·.serial) c _ (lost1_pendOk s hr).1 hc1]
+  · unfold failFx
+    cases c.timed <;> simp [Fx.completes, hcc]
+  · intro b _ hb y hy
+    rcases mem_failFx hy with rfl | rfl <;> simp [Fx.completes, hb]
 
 /-- The timer of each pending call that has one is cancelled exactly once; no other cancellation happens. -/
 theorem loss_timer_once (s : St) (hr : ReadyOk s) (c : Call) (hc : c ∈ s.pending) :
@@ -181,7 +205,7 @@ theorem loss_timer_once (s : St) (hr : ReadyOk s) (c : Call) (hc : c ∈ s.pendi
     simp
   rw [z1, z3, countP_flatMap_key (· == Fx.timerCancelled c.serial) failFx (·.serial) c _ (lost1_pendOk s hr).1 hc1]
   · unfold failFx
-    cases c.timed <;> simp
+    cases c.timed <;> cases c.cancelled <;> simp
   · intro b _ hb y hy
     rcases mem_failFx hy with rfl | rfl <;> simp [hb]
 
